@@ -233,7 +233,7 @@ func (r *Run) Violation(sig string, caseID string, witness any) bool {
 	r.viol[sig]++
 	if r.viol[sig] == 1 {
 		sum := sha256.Sum256([]byte(sig))
-		dir := filepath.Join(r.root, "replay", r.Prop)
+		dir := filepath.Join(env("VERIF_REPLAY_DIR", filepath.Join(r.root, "replay")), r.Prop)
 		_ = os.MkdirAll(dir, 0o755)
 		p := filepath.Join(dir, hex.EncodeToString(sum[:6])+".json")
 		b, _ := json.MarshalIndent(map[string]any{
@@ -315,7 +315,7 @@ func (r *Run) Finish(rule string, floor int) {
 		evd["assumptions"] = []string{}
 	}
 	if r.only == "" {
-		dir := filepath.Join(r.root, "evidence")
+		dir := env("VERIF_EVIDENCE_DIR", filepath.Join(r.root, "evidence")) // validation runs against changed copies write elsewhere
 		_ = os.MkdirAll(dir, 0o755)
 		b, err := json.MarshalIndent(evd, "", " ")
 		if err != nil {
